@@ -215,7 +215,9 @@ End Integrands.
 Module S := ThermalSumGen.
 Section Sum.
 Variable e : S.env.
-Notation eps := (1 / 10 ^ 100).
+Notation eps := S.SMALL_NUMBER.
+Lemma eps_pos : 0 < eps.
+Proof. unfold eps. lra. Qed.
 
 (** T^4/(2 pi^2) * ( sum_b n_b Re Jb(m_b^2/T^2) + sum_f n_f Re Jf(m_f^2/T^2) ) *)
 Definition thermal_value (mB nB mF nF : list R) (T : R) : R :=
@@ -227,9 +229,6 @@ Definition has_negative (mB mF : list R) : bool :=
   existsb (fun m => if Rlt_dec m 0 then true else false) mB ||
   existsb (fun m => if Rlt_dec m 0 then true else false) mF.
 
-Lemma eps_literal : 1 / 10 ^ 100 = 1 / 10000000000000000000000000000000000000000000000000000000000000000000000000000000000000000000000000000.
-Proof. f_equal. lra. Qed.
-
 Theorem thermal_sum_form opt mB nB mF nF T :
   S.potentialOneLoopThermal e opt mB nB mF nF T =
   match opt with
@@ -240,7 +239,7 @@ Theorem thermal_sum_form opt mB nB mF nF T :
   | S.ERROR => if has_negative mB mF then None else Some (thermal_value mB nB mF nF T)
   end.
 Proof.
-  unfold S.potentialOneLoopThermal, thermal_value, has_negative. rewrite eps_literal.
+  unfold S.potentialOneLoopThermal, thermal_value, has_negative.
   destruct opt; cbn [S.EImaginaryOption_eq_dec S.EImaginaryOption_rec S.EImaginaryOption_rect
                      sumbool_rec sumbool_rect];
     rewrite ?map_map.
@@ -297,7 +296,7 @@ Theorem heavy_suppressed opt mB nB mF nF T X delta :
 Proof.
   intros Eb Ef HX HB HF LB LF.
   assert (He : 0 < T ^ 2 + eps).
-  { assert (0 <= T ^ 2) by (simpl; nra). assert (0 < eps) by (apply Rdiv_lt_0_compat; [lra|apply pow_lt; lra]). lra. }
+  { assert (0 <= T ^ 2) by (simpl; nra). pose proof eps_pos. lra. }
   assert (pos : forall l, Forall (fun m => X <= m / (T ^ 2 + eps)) l -> Forall (fun m => 0 <= m) l).
   { intros l H. eapply Forall_impl; [|exact H]. cbv beta. intros m Hm.
     assert (0 <= m / (T ^ 2 + eps)) by lra.
@@ -683,8 +682,8 @@ Theorem heavy_mass_suppressed : forall (e : S.env) opt mB nB mF nF T X delta,
   (forall x, X <= x -> Rabs (fst (S.Jb e x)) <= delta) ->
   (forall x, X <= x -> Rabs (fst (S.Jf e x)) <= delta) ->
   0 <= X ->
-  Forall (fun m => X <= m / (T ^ 2 + 1 / 10 ^ 100)) mB ->
-  Forall (fun m => X <= m / (T ^ 2 + 1 / 10 ^ 100)) mF ->
+  Forall (fun m => X <= m / (T ^ 2 + S.SMALL_NUMBER)) mB ->
+  Forall (fun m => X <= m / (T ^ 2 + S.SMALL_NUMBER)) mF ->
   length nB = length mB -> length nF = length mF ->
   exists v, S.potentialOneLoopThermal e opt mB nB mF nF T = Some v /\
     Rabs v <= delta * (sumR (map Rabs nB) + sumR (map Rabs nF)) * T ^ 4 / (2 * PI * PI).
